@@ -260,7 +260,11 @@ def prop_oracle(c):
             return None
         parts = r_sign_parts(cv, key, msg, ax)
         if parts["sig"] is None:
-            return None if got[0] == "err" else "the BIP's signing fails (zero nonce) but sign returned a signature"
+            if got[0] == "ok":
+                return "the BIP's signing fails (zero nonce) but sign returned a signature"
+            if got[1] != "AssertionError":
+                return "zero nonce (the BIP's signing fails): sign raised %s instead of its AssertionError 'k_prime cannot be zero'" % got[1]
+            return None
         if got[0] == "err":
             if small and parts["e"] == 0 and got[1] == "TypeError":
                 return None         # hypothesis H: unreachable-at-scale deviation (only on the small curves)
